@@ -223,7 +223,7 @@ func CertifiedNatThresholdWithMode(
 	// oneMinusFPowerSigmaBounds), so the common, well-separated-from-any-
 	// integer-boundary case costs the same as a single ln+exp evaluation,
 	// same as before this fix.
-	return escalateThreshold(
+	threshold, err := escalateThreshold(
 		oneMinusF,
 		poolStake,
 		totalStake,
@@ -231,6 +231,18 @@ func CertifiedNatThresholdWithMode(
 		seriesTargetBits,
 		maxThresholdEscalationBits,
 	)
+	if err != nil {
+		return nil, err
+	}
+	// f < 1 here, so (1-f)^sigma > 0 and the probability is strictly below
+	// 1: the floor can never reach upperBound. When (1-f)^sigma is smaller
+	// than the working precision, 1-(1-f)^sigma rounds to exactly 1.0 and
+	// both interval ends land on upperBound; the true floor is then
+	// upperBound-1.
+	if threshold.Cmp(upperBound) >= 0 {
+		threshold = new(big.Int).Sub(upperBound, bigIntOne)
+	}
+	return threshold, nil
 }
 
 // escalateThreshold implements CertifiedNatThresholdWithMode's
